@@ -114,8 +114,16 @@ def run(ctx):
                 angles = mx[2][0]
                 if angles[0] == "map" and angles[4] == T.TRUE:
                     elt, b, it = angles[1], angles[2], angles[3]
-                    pair_ok = elt == T.call("numpy.arccos", (T.call("numpy.dot", (("star", b),)),)) or \
-                        elt == T.call("numpy.arccos", (T.call("numpy.dot", (T.idx(b, T.num(0)), T.idx(b, T.num(1)))),))
+                    dots = (T.call("numpy.dot", (("star", b),)), T.call("numpy.dot", (T.idx(b, T.num(0)), T.idx(b, T.num(1)))))
+                    pair_ok = any(elt == T.call("numpy.arccos", (T.call("numpy.clip", (d_, T.num(-1), T.num(1))),)) for d_ in dots)
+                    unclipped = any(elt == T.call("numpy.arccos", (d_,)) for d_ in dots)
+                    if unclipped:
+                        ctx.violation("RANGE", f"{f.qualname} / RANGE / arccos argument clipped to [-1, 1]", where,
+                                      "np.arccos is applied to the raw dot product of two unit tangents; in floating point that product can be "
+                                      "-1 - 1ulp for antiparallel tangents (straight-through junctions), which is outside arccos's domain and, with "
+                                      "np.seterr(all='raise') set by the package, raises FloatingPointError - for every angle limit including the default "
+                                      "(virtual_edges.angle_between_two_vectors clips, this copy does not)")
+                        pair_ok = True
                     comb_ok = it[0] == "call" and it[1] == "itertools.combinations" and \
                         ((len(it[2]) == 2 and it[2][1] == T.num(2)) or (len(it[2]) == 1 and it[3] == (("r", T.num(2)),)))
                     vers = it[2][0] if comb_ok else None
@@ -305,6 +313,7 @@ def run(ctx):
 
 _P, _S = "forsys/fmatrix.py", "forsys/forsys.py"
 PINNED = [
+    ("F15 reintroduced: arccos of the unclipped dot product", _P, "\n            angles = [np.arccos(np.clip(np.dot(*combination), -1, 1)) for combination in combinations]", "\n            angles = [np.arccos(np.dot(*combination)) for combination in combinations]"),
     ("exclusion 'or' in get_angle_limited_edges", _P, "            if (big_edge[0] in self.deletes) and (big_edge[-1] in self.deletes):\n                big_edges_to_use.remove(big_edge)",
      "            if (big_edge[0] in self.deletes) or (big_edge[-1] in self.deletes):\n                big_edges_to_use.remove(big_edge)"),
     ("exclusion 'or' in get_solution_no_discarded", _P, "            if (big_edge[0] in self.deletes) and (big_edge[-1] in self.deletes):\n                xres_new[be_index] = -1",
@@ -330,5 +339,5 @@ PRESERVING = [
     ("exclusion operands commuted", _P, "            if (big_edge[0] in self.deletes) and (big_edge[-1] in self.deletes):\n                xres_new[be_index] = -1",
      "            if big_edge[-1] in self.deletes and big_edge[0] in self.deletes:\n                xres_new[be_index] = -1"),
     ("limit on the left", _P, "\n            if np.max(angles) >= self.angle_limit:", "\n            if self.angle_limit <= np.max(angles):"),
-    ("explicit pair unpacking", _P, "\n            angles = [np.arccos(np.dot(*combination)) for combination in combinations]", "\n            angles = [np.arccos(np.dot(a, b)) for a, b in combinations]"),
+    ("explicit pair unpacking", _P, "\n            angles = [np.arccos(np.clip(np.dot(*combination), -1, 1)) for combination in combinations]", "\n            angles = [np.arccos(np.clip(np.dot(a, b), -1, 1)) for a, b in combinations]"),
 ]
